@@ -24,7 +24,7 @@ RULE = (
     "Non-trivial: >=1 definition outside the closure; distinct by (namespace, victim, replacement)."
 )
 ASSUMPTIONS = ["file names stay valid (a malformed file name in a lookup directory may legitimately be reported)"]
-MIN_MONITORS = {"baseline": 1500, "replacement": 6000, "print-log-compare": 6000}
+MIN_MONITORS = {"baseline": 1500, "replacement": 4500, "print-log-compare": 4500}
 THOROUGH_MIN_SCALE = 10
 
 REPLACEMENTS = {
